@@ -23,7 +23,7 @@ def run(chk):
         "Decides variant -> algorithm NAME agreement, not the algorithms. With P-TRIE over sha2/sha3 (byte tries), hmac/crc/xxhash (str chains): R27a each "
         "accepted variant literal's leaf instantiates a hasher/constant whose name normalises to the literal ('SHA-512/224' -> Sha512_224, 'CRC_32_ISCSI' -> "
         "crc::CRC_32_ISCSI, 'XXH3-64' -> xxh3_64) and to no sibling literal's name; R27b the validator table (variants()/VALID_*) equals the dispatched "
-        "set, so the `unreachable!` fall-through of sha2/sha3 really is unreachable; R27c md5/sha1/seahash reach their own crate; R27d a digest (result of a hasher's checksum/finalize/hash/xxh* call) is never narrowed by an integer cast before it is rendered (a narrowing `as` keeps the low bits only: the wide CRCs / 128-bit hashes would no longer match). R27e the digest is never produced without looking at the algorithm/variant argument: in resolve every success definition of the return place is dominated by a read of that field. Undecided: the algorithms.")
+        "set, so the `unreachable!` fall-through of sha2/sha3 really is unreachable; R27c md5/sha1/seahash reach their own crate; R27d a digest (result of a hasher's checksum/finalize/hash/xxh* call) is never narrowed by an integer cast before it is rendered (a narrowing `as` keeps the low bits only: the wide CRCs / 128-bit hashes would no longer match). R27f the hashed message and the key are taken as raw bytes: inside the digest functions a lossy UTF-8 conversion (`try_bytes_utf8_lossy`, `from_utf8_lossy`: every invalid sequence becomes U+FFFD) is applied only to the algorithm/variant argument, never to a value derived from another parameter; R27e the digest is never produced without looking at the algorithm/variant argument: in resolve every success definition of the return place is dominated by a read of that field. Undecided: the algorithms.")
     M = fmap.FMap(facts)
     for fn0, cfg in DISPATCHERS.items():
         # the dispatch normally lives in the helper named like the function; after a refactor it may live in another body of the same
@@ -116,6 +116,7 @@ def run(chk):
 
     rule_r27d(chk, M)
     rule_r27e(chk, M)
+    rule_r27f(chk, M)
 
 
 HASH_OUT = re.compile(r"(^|[<:])crc::Crc<.*>::checksum$|::checksum$|xxhash_rust::\w+::xxh\w+$|seahash::\w*::?hash\w*$|seahash::hash$|::finalize$|::finalize_fixed$|::digest$|::into_bytes$")
@@ -210,3 +211,50 @@ def rule_r27e(chk, M):
                 chk.violation(rid, b.file, rn, "`%s` returns a digest without reading `%s`" % (ident, fld[0]),
                               "`%s`: resolve can return a result (line %s) on a path that never looks at the `%s` argument, so the digest computed there cannot "
                               "depend on the requested algorithm" % (ident, ln, fld[0]), detail=d, loc="%s:%s" % (b.file, ln))
+
+
+SELECTOR_PARAMS = ("algorithm", "variant")
+
+
+def rule_r27f(chk, M):
+    from facts import flow_sources, op_local
+    facts = chk.facts
+    rid = "R27f"
+    chk.rule(rid, "lossy UTF-8 conversion inside the digest functions touches only the algorithm/variant argument", floor=2)
+    for ident in DIGEST_FUNCS:
+        f = M.by_ident.get(ident)
+        if f is None:
+            chk.fail_closed(rid, "digest function `%s` not found in the registry" % ident)
+            continue
+        roots = [r for r in (M.resolve_body(e) for e in f["exprs"]) if r]
+        seen, _ext, _par = facts.reach(roots, stop=lambda c: c.startswith("dyn ") or c.startswith("? "), cha=False)
+        bodies = [n for n in seen if facts.has(n) and (n.startswith("stdlib::") or n.startswith("<stdlib::"))]
+        for n in sorted(bodies):
+            b = facts.body(n)
+            for bb, t in b.calls():
+                cal = b.callee(t) or ""
+                if "utf8_lossy" not in cal or not t["args"]:
+                    continue
+                l = op_local(t["args"][0])
+                srcs = flow_sources(b, l) if l is not None else set()
+                params = sorted({b.local_name(x[1]) or ("_%d" % x[1]) for x in srcs if x[0] == "arg"})
+                upvars = sorted({x[1] for x in srcs if x[0] == "upvar"})
+                names = params + upvars
+                # `self` (the function struct in resolve) is followed by field name below
+                fields = set()
+                if "self" in names:
+                    for bi, si, st in b.iter_stmts():
+                        rv = st["rv"]
+                        pl = rv.get("p") if rv["k"] in ("ref",) else None
+                        if pl and pl["l"] == 1:
+                            fields |= {x.get("f") for x in pl.get("p", []) if isinstance(x, dict) and x.get("f")}
+                bad = [x for x in names if x != "self" and x not in SELECTOR_PARAMS]
+                d = {"function": ident, "body": n, "callee": cal, "receiver_derives_from": names, "site": b.loc(t)}
+                if not names:
+                    chk.note(rid, "%s: receiver of %s not traced to a parameter (unarmed)" % (b.loc(t), cal))
+                    continue
+                chk.instance(rid, d, ok=not bad)
+                if bad:
+                    chk.violation(rid, b.file, n, "lossy UTF-8 conversion of `%s`" % bad[0],
+                                  "`%s`: %s applies %s to a value derived from parameter `%s`; invalid UTF-8 sequences in it are replaced by U+FFFD before hashing/keying, "
+                                  "so for binary input the result is not the published algorithm's digest of the given bytes" % (ident, b.loc(t), cal.rsplit("::", 1)[1], bad[0]), detail=d)
